@@ -36,7 +36,7 @@ m = {
         "name": "lean4-proof+correspondence",
         "path": "/verif/check",
         "serves_properties": [c["property_id"] for c in checks],
-        "kind_free_text": "Lean 4 theorems (lake project /verif/lean) about Impl models and Specs; Rust harness (/verif/harness) runs the real interpreter in-process and the compiled Lean driver on the same inputs and diffs them; tools/extract_tables.py regenerates tabular parts of the model from /repo/src on every run",
+        "kind_free_text": "Lean 4 theorems (lake project /verif/lean) about Impl models and Specs; Rust harness (/verif/harness) runs the real interpreter in-process and the compiled Lean driver on the same inputs and diffs them; tools/extract_c03.py / extract_c04.py / extract_c05.py regenerate the tabular parts of the model from /repo/src on every run",
     }],
     "checks": checks,
     "notes": "Genuine defects repaired by fix: commits in /repo are listed in known_findings.txt (fixed: ...). exit 2 from ./check means the machinery could not build (e.g. /repo does not compile).",
